@@ -68,10 +68,10 @@ Definition Paints (c : cfg) (t : term) (content : list crow) (cursor : option (Z
    the space is one column wide *)
 Definition chr_ok (utf8 : bool) (ch : chr) : Prop :=
   32 <= fst ch /\ (snd ch = 1 \/ (utf8 = true /\ snd ch = 2)) /\ (fst ch = 32 -> snd ch = 1).
-(* non-empty runs; no charset flags under UTF-8, None or "0" (DEC special graphics) otherwise *)
+(* non-empty runs; no charset flags under UTF-8; None, "0" (DEC special graphics) or "U" (IBMPC) otherwise *)
 Definition run_ok (c : cfg) (r : crun) : Prop :=
   let '(a, cs, text) := r in
-  text <> [] /\ Forall (chr_ok (g_utf8 c)) text /\ (if g_utf8 c then cs = 0 else cs = 0 \/ cs = 1).
+  text <> [] /\ Forall (chr_ok (g_utf8 c)) text /\ (if g_utf8 c then cs = 0 else cs = 0 \/ cs = 1 \/ cs = 2).
 Definition row_width (row : crow) : Z := fold_right (fun r acc => calc_width (snd r) + acc) 0 row.
 Definition row_ok (c : cfg) (cols : Z) (row : crow) : Prop :=
   Forall (run_ok c) row /\ row_width row = cols.
@@ -134,14 +134,7 @@ Inductive Reach (c : cfg) : scr -> term -> option canvas -> bool -> Prop :=
       Reach c s t last shown -> resized_from t t' ->
       Reach c (ack (winch s)) t' None false.
 
-(* ---------- statements kept in full although only refuted / not proved ---------- *)
-(* like run_ok, but the IBMPC charset "U" (produced by the vterm TermCanvas) is allowed too *)
-Definition run_ok_u (c : cfg) (r : crun) : Prop :=
-  let '(a, cs, text) := r in
-  text <> [] /\ Forall (chr_ok (g_utf8 c)) text /\ (if g_utf8 c then cs = 0 else cs = 0 \/ cs = 1 \/ cs = 2).
-Definition canvas_ok_u (c : cfg) (cols rows : Z) (content : list crow) : Prop :=
-  zlen content = rows /\ Forall (fun row => Forall (run_ok_u c) row /\ row_width row = cols) content.
-
+(* ---------- plain histories of draws as a function ---------- *)
 Fixpoint run_draws (c : cfg) (s : scr) (t : term) (frames : list canvas) : option (scr * term) :=
   match frames with
   | [] => Some (s, t)
@@ -152,20 +145,26 @@ Fixpoint run_draws (c : cfg) (s : scr) (t : term) (frames : list canvas) : optio
       end
   end.
 
-(* every history of draws with charsets None/"0"/"U" paints its last canvas *)
-Definition draw_paints_charset_u_full : Prop :=
-  forall c cols rows frames content cursor s t,
-    cfg_ok c -> 1 <= cols -> 1 <= rows ->
-    Forall (fun f : canvas => canvas_ok_u c cols rows (fst f) /\ cursor_ok cols rows (snd f)) (frames ++ [(content, cursor)]) ->
-    run_draws c (init_scr false) (new_term cols rows) (frames ++ [(content, cursor)]) = Some (s, t) ->
-    Paints c t content cursor.
-
-(* partial display (started without the alternate buffer, display origin = terminal row 0):
-   every history of draws shows the rows 0.._rows_used of its last canvas, never scrolling *)
-Definition draw_paints_partial_full : Prop :=
+(* every history of draws (charsets None / "0" / "U") from a fresh terminal paints its last canvas *)
+Definition draws_paint_statement (partial : bool) (paints : cfg -> scr -> term -> list crow -> option (Z * Z) -> Prop) : Prop :=
   forall c cols rows frames content cursor s t,
     cfg_ok c -> 1 <= cols -> 1 <= rows ->
     Forall (fun f : canvas => canvas_ok c cols rows (fst f) /\ cursor_ok cols rows (snd f)) (frames ++ [(content, cursor)]) ->
-    run_draws c (init_scr true) (new_term cols rows) (frames ++ [(content, cursor)]) = Some (s, t) ->
-    (forall y row ru, s_ru s = Some ru -> 0 <= y <= ru -> nthz content y = Some row -> row_shows c row (get_row (t_grid t) y))
-    /\ cursor_shown t cursor /\ t_scrolled t = false.
+    run_draws c (init_scr partial) (new_term cols rows) (frames ++ [(content, cursor)]) = Some (s, t) ->
+    paints c s t content cursor.
+
+(* ---------- partial display (started without the alternate buffer; display origin = terminal row 0,
+   the lines below it blank, as many terminal rows as canvas rows) ---------- *)
+Definition blank_row_text (r : list cell) : Prop := Forall (fun x => c_cp x = 32 /\ c_w x = 1) r.
+Definition is_blank (row : crow) : bool := match is_blank_row row with Ok b => b | Err _ => false end.
+(* a canvas row that is blank may never have been painted (urwid leaves blank lines off the display):
+   then only its text is demanded; any other row is demanded in full *)
+Definition row_shows_partial (c : cfg) (row : crow) (trow : list cell) : Prop :=
+  row_shows c row trow \/ (is_blank row = true /\ blank_row_text trow /\ zlen trow = row_width row).
+(* the rows 0.._rows_used of the canvas are shown; the rows below are blank in the canvas and on the terminal *)
+Definition PaintsPartial (c : cfg) (s : scr) (t : term) (content : list crow) (cursor : option (Z * Z)) : Prop :=
+  (exists ru, s_ru s = Some ru /\ 0 <= ru /\
+     forall y row, nthz content y = Some row ->
+       (y <= ru -> row_shows_partial c row (get_row (t_grid t) y)) /\
+       (ru < y -> is_blank row = true /\ blank_row_text (get_row (t_grid t) y))) /\
+  cursor_shown t cursor /\ t_scrolled t = false.
